@@ -68,6 +68,8 @@ type implT struct {
 	// verify runs juno's VerifyProof on a set rebuilt from wire nodes.
 	verify      func(hs *hasher, root, key *felt.Felt, nodes []pnode, keying int, poseidon bool) (felt.Felt, error)
 	verifyRange func(hs *hasher, root, first *felt.Felt, keys, values []*felt.Felt, nodes []pnode, nilProof bool, keying int) (bool, error)
+	// verifyRangeRaw (trie2): the verifier is handed the prover's node set as produced (Go objects, cached hashes)
+	verifyRangeRaw func(root, first *felt.Felt, keys, values []*felt.Felt, raw any) (bool, error)
 }
 
 // ---------------------------------------------------------------- legacy core/trie
@@ -377,6 +379,9 @@ func trie2Impl(name string, mem bool) implT {
 				return trie2.VerifyRangeProof(root, first, keys, values, nil)
 			}
 			return trie2.VerifyRangeProof(root, first, keys, values, trie2Set(hs, nodes, keying))
+		},
+		verifyRangeRaw: func(root, first *felt.Felt, keys, values []*felt.Felt, raw any) (bool, error) {
+			return trie2.VerifyRangeProof(root, first, keys, values, raw.(*trie2.ProofNodeSet))
 		},
 	}
 }
